@@ -1,42 +1,34 @@
 /-
-  C31 witnesses: statements of the property that are FALSE of `io.py`, shown on the model `Mjw.IoOrder` (the same inputs
-  are replayed on the real code by harness/props/c31.py, trigger `excluded-contact`, and by the stand-alone script in the
-  report).
+  C31 witnesses: statements of the property that are STILL FALSE of `io.py:get_data_into`, shown on the model `Mjw.IoOrder`
+  (the same situations are produced on the real code by harness/props/c31.py, triggers `efc-id-not-remapped` and
+  `extra-contacts-exported`).  The witnesses of the excluded-contact defect were deleted when it was repaired (e4120b4).
 
-  Scene behind the numbers: plane + sphere A (margin 0.1, gap 0.08) hovering at distance 0.15 (inside margin+gap, outside
-  margin: MuJoCo reports the contact with `exclude = 1`, `efc_address = -1`) + sphere B resting on the plane (condim 3,
-  pyramidal: 4 rows) + one joint-limit row.  MuJoCo: ncon 2, nefc 5, efc_address [-1, 1].
+  Payloads are concrete here: a contact slot carries its `ContactType` bits (1 = CONSTRAINT, 2 = SENSOR), an efc row carries
+  (efc_type, efc_id); 6 = mjCNSTR_CONTACT_PYRAMIDAL.
 -/
 import MjwVerif.Lemmas.C31
 
 namespace Mjw.Props.C31
 open Mjw.IoOrder
 
-/-- the MjData above; efc row payloads 100..104 stand for (type, id, J, pos, …) of rows 0..4 -/
-def gapHost : Host String Nat := ⟨[⟨3, -1, "A"⟩, ⟨3, 1, "B"⟩], [100, 101, 102, 103, 104], 0, 0, 1⟩
+/-- device state of `make_data(nworld = 2)` + `mjw.forward` for: plane, sphere `a` hovering, sphere `b` resting on the plane,
+    `<distance geom1="a" geom2="b">` sensor.  Slots: world 0 = {0: plane-b contact, 1: a-b sensor pair}, world 1 = {2, 3}.
+    `_efc_contact_init` stores the SLOT number in efc.id. -/
+def sensDev : Dev Nat (Nat × Nat) :=
+  ⟨[⟨0, 3, [0, 1, 2, 3], 1⟩, ⟨0, 3, [-1, -1, -1, -1], 2⟩, ⟨1, 3, [0, 1, 2, 3], 1⟩, ⟨1, 3, [-1, -1, -1, -1], 2⟩], 4,
+   fun w => if w = 0 then [(6, 0), (6, 0), (6, 0), (6, 0), (0, 0), (0, 0)] else [(6, 2), (6, 2), (6, 2), (6, 2), (0, 0), (0, 0)],
+   fun _ => 4, fun _ => 0, fun _ => 0, fun _ => 0⟩
 
-/-- `put_data` builds what it should: the excluded contact gets an all `-1` address row -/
-theorem gap_put : (put true 4 2 6 8 "" 0 gapHost).cons.map (·.adr) =
-    [[-1, -1, -1, -1], [1, 2, 3, 4], [-1, -1, -1, -1], [1, 2, 3, 4], [-1, -1, -1, -1], [-1, -1, -1, -1]] := by decide
+/-- **efc_id_not_remapped_witness**: world 1's export has its plane-b contact at index 0 of the exported contact list
+    (efc_address 0), but the rows at that address carry efc_id 2 (the device slot), which does not index the exported list of
+    2 contacts.  MuJoCo's invariant `efc_id[contact[i].efc_address + k] = i` fails. -/
+theorem efc_id_not_remapped_witness :
+    get true 6 sensDev 1 = some ⟨[⟨3, 0, 1⟩, ⟨3, -1, 2⟩], [(6, 2), (6, 2), (6, 2), (6, 2)], [(6, 2), (6, 2), (6, 2), (6, 2)], 0, 0, 0⟩ := by
+  decide
 
-/-- **excluded_contact_roundtrip_witness**: `get_data_into` then uses the `-1`s as row indices: the exported efc rows are
-    row 0, then four times the zero row njmax-1 (for J: row nefc-1), contact B's rows 1..4 are lost, and contact A gets
-    efc_address 1, contact B 5 (= nefc, out of range) instead of -1 and 1 — for every world. -/
-theorem excluded_contact_roundtrip_witness :
-    get true 8 (put true 4 2 6 8 "" 0 gapHost) 1
-      = some ⟨[⟨3, 1, "A"⟩, ⟨3, 5, "B"⟩], [100, 0, 0, 0, 0], [100, 104, 104, 104, 104], 0, 0, 1⟩ ∧
-    get true 8 (put true 4 2 6 8 "" 0 gapHost) 1 ≠ some gapHost.got := by decide
-
-/-- the hypothesis of `roundtrip` that fails: the contact blocks are not contiguous from ne+nf+nl -/
-theorem gapHost_not_WF : ¬ gapHost.WF true 8 := by
-  intro h
-  exact absurd h.contig.1 (by decide)
-
-/-- the same index computation on the device state `mjw.forward` itself produces for that scene (inactive contact:
-    `_efc_contact_init` returns early, `write_contact` had filled the row with -1): same garbage -/
-theorem inactive_contact_after_forward_witness :
-    get true 8 (⟨[⟨0, 3, [-1, -1, -1, -1], "A"⟩, ⟨0, 3, [1, 2, 3, 4], "B"⟩], 2, fun _ => [100, 101, 102, 103, 104, 0, 0, 0],
-                 fun _ => 5, fun _ => 0, fun _ => 0, fun _ => 1⟩ : Dev String Nat) 0
-      = some ⟨[⟨3, 1, "A"⟩, ⟨3, 5, "B"⟩], [100, 0, 0, 0, 0], [100, 104, 104, 104, 104], 0, 0, 1⟩ := by decide
+/-- **sensor_only_contact_exported_witness**: the export lists 2 contacts although only one slot has the CONSTRAINT bit
+    (MuJoCo's MjData has ncon = 1 for this scene): the selection looks at `worldid` only (`mem_sel`). -/
+theorem sensor_only_contact_exported_witness :
+    (getCons true sensDev 0).length = 2 ∧ ((sel sensDev 0).filter (fun c => c.pay % 2 == 1)).length = 1 := by decide
 
 end Mjw.Props.C31
